@@ -85,6 +85,8 @@ def clean(v):
 def gen_op(rng):
     k = rng.random()
     n = hx(rng.choice(NAMES))
+    if k < 0.05:
+        return f"s:{n}:-"                      # the empty value (often after a non-empty one)
     if k < 0.28:
         return f"s:{n}:{hx(gen_value(rng))}"
     if k < 0.52:
